@@ -55,12 +55,16 @@ func TurnOffLiquidVesting(ctx sdk.Context, bk bankkeeper.Keeper, lk liquidvestin
 
 	// Collect all reedem messages
 	var wg sync.WaitGroup
+	// every worker appends to updatedVestingAccounts and redeemsVector
+	var mu sync.Mutex
 	accChan := make(chan authtypes.AccountI, 100)
 	worker := func() {
 		defer wg.Done()
 		for acc := range accChan {
+			mu.Lock()
 			tryFoundFixScheduleForVestingAccount(acc, &updatedVestingAccounts)
 			processAccount(ctx, acc, storageMap, &redeemsVector)
+			mu.Unlock()
 		}
 	}
 
